@@ -265,9 +265,12 @@ def replay_poly(cfg):
     nxseg = 16
     dt = 0.02
     # one stable and one unstable discrete pole (|z| > 1 -> Re > 0)
-    for lams in ([0.9 * np.exp(0.4j), 0.9 * np.exp(-0.4j)], [1.05 * np.exp(0.3j), 1.05 * np.exp(-0.3j)], [0.95, 1.1]):
+    # stable, unstable, mixed real, and a pair exactly on the unit circle (Re lam_c == 0: non-positive, must be reported)
+    for lams in ([0.9 * np.exp(0.4j), 0.9 * np.exp(-0.4j)], [1.05 * np.exp(0.3j), 1.05 * np.exp(-0.3j)], [0.95, 1.1], [1j, -1j]):
         V = np.array([[1, 1], [lams[0], lams[1]]], dtype=complex)
         A = np.real_if_close(V @ np.diag(lams) @ np.linalg.inv(V))
+        if lams[0] == 1j:
+            A = np.array([[0.0, -1.0], [1.0, 0.0]])     # exact rotation: eigenvalues exactly +-i
         C = np.random.RandomState(1).randn(nch, n)
         with np.errstate(all="ignore"):
             fn, xi, phi, lam_c = plscf.ac2mp_poly(np.real(A), C, dt, cfg["method"], nxseg)
@@ -452,12 +455,19 @@ def replay_rec(cfg):
             Az = sum(A[i] * z ** i for i in range(n + 1))
             Bz = sum(B[i] * z ** i for i in range(n + 1))
             Sy[:, :, k] = Bz @ np.linalg.inv(Az)
-        try:
-            Ad, Bn = plscf.pLSCF(Sy, dt, n, sgn_basf=sgn)
-        except Exception as e:  # noqa: BLE001
-            return True, f"pLSCF raised {type(e).__name__}: {e}"
-        if not np.allclose(Ad[n - 1], A, rtol=1e-6, atol=1e-8):
-            return True, f"sgn={sgn}, Nch={nch}: denominator {np.round(Ad[n - 1].ravel(), 5).tolist()} != true {np.round(A.ravel(), 5).tolist()}"
+        # the order-n model must not depend on how many higher orders are requested (ordmax >= n)
+        for ordmax in (n, n + 1, n + 3):
+            try:
+                Ad, Bn = plscf.pLSCF(Sy, dt, ordmax, sgn_basf=sgn)
+            except np.linalg.LinAlgError:
+                if ordmax > n:
+                    continue      # over-specified orders of an exactly rational spectrum can be singular: not judged here
+                return True, f"pLSCF raised LinAlgError at ordmax = n = {n}"
+            except Exception as e:  # noqa: BLE001
+                return True, f"pLSCF raised {type(e).__name__}: {e}"
+            if not np.allclose(Ad[n - 1], A, rtol=1e-6, atol=1e-8):
+                return True, (f"sgn={sgn}, Nch={nch}, ordmax={ordmax}: order-{n} denominator {np.round(Ad[n - 1].ravel(), 5).tolist()} != true "
+                              f"{np.round(A.ravel(), 5).tolist()}")
     return False, "denominator coefficients recovered"
 
 
